@@ -12,8 +12,11 @@ dense_prior(model, train_x, test_x)      -> joint mean / covariance of the model
 spec_noise(likelihood, desc, n, ...)     -> the noise covariance the likelihood is documented to add
 settings_cells(...) / enter_cell(cell)   -> the prediction-relevant settings grid
 
-`description` is a JSON-able dict (kernel expression, mean, likelihood kind, sizes, batch pattern, the
-hyperparameter values) — enough to rebuild the model with `rebuild(description)`.
+observe_solves(log)                      -> observation-only wrapper around linear_operator's `solve`
+
+`description` is a JSON-able dict (kernel expression and spec with the drawn hyperparameter values, mean, likelihood
+kind, sizes, batch pattern).  Models are a deterministic function of the rng state, so a case is reproduced by
+re-creating the same `C.Rng` label.
 """
 import contextlib
 import itertools
